@@ -216,7 +216,24 @@ func (g *scopeGen) params() string {
 	for i, n := range names {
 		*cur = append(*cur, n)
 		g.markVar("param", n)
-		switch g.r.Intn(6) {
+		switch g.r.Intn(7) {
+		case 6:
+			// default that reads a variable of an enclosing scope (which the body reads again at its observation sites)
+			outer := ""
+			for k := len(g.stack) - 2; k >= 0 && outer == ""; k-- {
+				for _, o := range g.stack[k] {
+					if o != n && o != "Q" && !contains(names, o) {
+						outer = o
+						break
+					}
+				}
+			}
+			if outer == "" {
+				parts = append(parts, n)
+			} else {
+				parts = append(parts, n+"="+outer)
+				g.markVar("outer", outer) // guard js-param-default-shadowed-by-body-var: no `var` of that name in this function
+			}
 		case 0:
 			parts = append(parts, n+"="+g.nextTag())
 		case 1:
@@ -246,6 +263,30 @@ func (g *scopeGen) child(depth int) {
 	k := r.Intn(13)
 	if k == 12 && g.keep {
 		k = 11 // guard js-keepvarnames-else-unscoped (open finding): with KeepVarNames the dissolved else block's names clash unrenamed
+	}
+	if k == 11 && r.Bool() {
+		// for-in/of over a target declared beforehand (the loop header declares nothing): the body is a scope of its own
+		g.push(true)
+		g.w("(function(){")
+		g.declsIn(false)
+		it := g.freshNames(1, g.stack[len(g.stack)-1])
+		if len(it) == 0 || contains(g.stack[len(g.stack)-1], it[0]) {
+			it = []string{"it9"}
+		}
+		g.stack[len(g.stack)-1] = append(g.stack[len(g.stack)-1], it[0])
+		g.markVar("var", it[0])
+		g.w("var " + it[0] + ";for(" + it[0] + " " + r.Pick([]string{"of [" + g.nextTag() + "," + g.nextTag() + "]", "in {k1:1,k2:2}"}) + "){")
+		g.push(false)
+		g.declsIn(true)
+		g.observe()
+		g.w("Q.push(()=>{")
+		g.observe()
+		g.w("});}")
+		g.pop()
+		g.observe()
+		g.w("})();")
+		g.pop()
+		return
 	}
 	switch k {
 	case 12:
